@@ -28,21 +28,17 @@ Desc(k, v, pop, t, c, cls, old, mo) ==
 
 PopSets(v) == {p \in SUBSET GroupsAt(v) :
                  Cardinality(p) <= PopLow \/ Cardinality(p) >= Cardinality(GroupsAt(v)) - PopHigh}
-PopCases == {Desc("pop", v, p, "", "", "plain", old, mo) :
-               v \in Versions, p \in UNION {PopSets(w) : w \in Versions},
-               old \in BOOLEAN, mo \in BOOLEAN}
+PopCases == UNION {{Desc("pop", v, p, "", "", "plain", old, mo) :
+                      p \in PopSets(v),
+                      old \in Bools(Len(Hist.legacy[ToString(v)]) > 0),
+                      mo \in Bools(~Hist.needall[ToString(v)])} : v \in Versions}
 UniCases == {Desc("uni", v, GroupsAt(v), "*", "*", cls, FALSE, FALSE) : v \in Versions, cls \in Classes}
 OneCases == {Desc("one", x[1], GroupsAt(x[1]), x[2][1], x[2][2], cls, FALSE, FALSE) :
                x \in UNION {{<<v, tc>> : tc \in TargetsAt(v)}
                             : v \in {w \in Versions : OneStep > 0 /\ w % OneStep = 0}},
                cls \in Classes}
 
-ValidPop(d) ==
-  /\ SeqRange(d.pop) \in PopSets(d.v)
-  /\ d.old \in Bools(Len(Hist.legacy[ToString(d.v)]) > 0)
-  /\ d.mo \in Bools(~Hist.needall[ToString(d.v)])
-
-Valid == {d \in PopCases : ValidPop(d)} \cup UniCases \cup OneCases
+Valid == PopCases \cup UniCases \cup OneCases
 
 \* versions from which the specification is satisfiable and not trivially so
 SaneVersions ==
